@@ -48,6 +48,7 @@ def cuberoot(x):
     Correctly handle the cube root for negative weights, instead of uselessly
     crashing as in python or returning the wrong root as in matlab
     '''
+    x = np.asarray(x, dtype=float)  # np.sign has no loop for bool arrays
     return np.sign(x) * np.abs(x)**(1 / 3)
 
 
